@@ -23,6 +23,8 @@ void EnterPrim() {
 }
 void LeavePrim() {
 }
+void OnRawAlloc(const void*, std::size_t) {
+}
 void OnAlloc(const void*, std::size_t) {
 }
 void OnFree(const void*) {
